@@ -12,6 +12,10 @@ type Fh struct {
 }
 
 func MakeFh(fh3 nfstypes.Nfs_fh3) Fh {
+	if len(fh3.Data) < 8 {
+		// not a handle we issued; inode 0 is never valid
+		return Fh{Ino: common.NULLINUM}
+	}
 	dec := marshal.NewDec(fh3.Data)
 	i := dec.GetInt()
 	return Fh{Ino: common.Inum(i)}
